@@ -1,7 +1,7 @@
 (* C03 property theorems. Statements closed by `exact lemma`, followed by Print Assumptions; Examples show that the
    hypotheses are satisfiable. *)
 From Coq Require Import NArith ZArith List Bool Lia.
-From OG Require Import C03.Model C03.Proofs C03.ColModel C03.ColProofs C03.FaultModel C03.FaultProofs.
+From OG Require Import C03.Model C03.Proofs C03.ColModel C03.ColProofs C03.ColLimModel C03.ColLimProofs C03.FaultModel C03.FaultProofs.
 Import ListNotations.
 
 (* Main theorem, for the whole family of protocols "log first, log removal last, any interleaving of renaming the
@@ -208,6 +208,37 @@ Example wf_src_satisfiable :
   compact_col None 2 [mksrc [2; 1] None; mksrc [2; 2] (Some [[Some 1%Z; None]; [Some 2%Z; Some 3%Z]])]
   = [[None; None]; [None; Some 1%Z]; [None; Some 2%Z]; [Some 3%Z]].
 Proof. split; [repeat constructor; cbn; lia | vm_compute; reflexivity]. Qed.
+
+(* ---------- a series split over several output files (max-segment-limit; ColLimModel, code after /repo 95cf0b3) ----------
+   For every max-rows > 0, every limit > 0 and all bounded input chunks: the column's segments in the output files, laid end to
+   end in file order, are EXACTLY the segments the compactor writes without a limit - leaving compactColumn at the limit,
+   carrying the buffered rows (lastSeg) and resuming at (iteratorStart, segmentIndex) only inserts file boundaries. *)
+Theorem C03_split_files_concat : forall (A : Type) (nil : A) (maxRows limit : nat),
+  0 < maxRows -> 0 < limit -> forall srcs : list (src A), Forall (bounded_src maxRows) srcs ->
+  concat (compact_col_lim nil maxRows limit srcs) = compact_col_actual nil maxRows srcs.
+Proof. exact (@compact_col_lim_correct). Qed.
+Print Assumptions C03_split_files_concat.
+
+(* hence no cell of the series is lost, duplicated, reordered or shifted by the split *)
+Theorem C03_split_cells_exact : forall (A : Type) (nil : A) (maxRows limit : nat) (srcs : list (src A)),
+  0 < maxRows -> 0 < limit -> srcs <> [] -> Forall (bounded_src maxRows) srcs ->
+  concat (concat (compact_col_lim nil maxRows limit srcs)) = concat (map (expand nil) srcs).
+Proof. exact (@compact_col_lim_cells). Qed.
+Print Assumptions C03_split_cells_exact.
+
+(* sensitivity (the code before 95cf0b3, finding C03-stream-split): restarting EVERY later chunk at the resume segment index
+   loses the leading segments of those chunks *)
+Theorem split_resume_all_chunks_refuted :
+  exists (m limit : nat) (srcs : list (src (option Z))),
+    0 < m /\ 0 < limit /\ Forall (wf_src m) srcs /\
+    concat (concat (compact_col_lim_resume_all None m limit srcs)) <> concat (map (expand None) srcs).
+Proof. exact resume_all_refuted. Qed.
+Print Assumptions split_resume_all_chunks_refuted.
+
+Example split_example :
+  compact_col_lim None 2 2 [mksrc [2; 2; 1] (Some [[Some 1%Z; Some 2%Z]; [Some 3%Z; Some 4%Z]; [Some 5%Z]]); mksrc [2] None]
+  = [[[Some 1%Z; Some 2%Z]; [Some 3%Z; Some 4%Z]]; [[Some 5%Z; None]; [None]]].
+Proof. vm_compute. reflexivity. Qed.
 
 (* ---------- reorganisations that FAIL (I/O errors instead of process kills; FaultModel.replace_exec / merge_exec) ----------
    Any set of failing file-system mutations (fails : ordinal of the attempt -> bool), today's or the repaired delete loop,
